@@ -40,6 +40,7 @@ MagStep(st, h) ==
        [] nm = "inv_ntt_in" -> IF h[2] < IB!PRE32 /\ h[3] <= IB!PR32B(h[2]) /\ h[3] <= 8388607
                                THEN [st EXCEPT !.copy = h[3]] ELSE fail("inv_ntt copy-in not reduced as modelled")
        [] nm = "inv_ntt_layer" -> IF h[3] <= st.copy * 2 * h[2] /\ h[3] < 2147483647 THEN st ELSE fail("inverse transform layer above the envelope")
+       [] nm = "expand_mask_out" -> IF h[5] <= GAMMA1 /\ h[3] <= LL /\ h[4] <= LL * N THEN st ELSE fail("ExpandMask output outside [-gamma1+1, gamma1]")
        [] OTHER -> st
 MagFold(evs) == FoldLeft(MagStep, [nin |-> GAMMA1, copy |-> 0, ok |-> TRUE, why |-> << >>], evs)
 
